@@ -118,9 +118,18 @@ Definition key_c04_ok (k : dkey) : bool :=
       | Raise _ => true               (* k_type(key) raises at load: a refusal *)
       end
   end.
-Definition some_key_texts (ks : list dkey) : list pstr :=
-  flat_map (fun k => match k_val k with Some sc => [key_text sc] | None => [] end) ks.
-Definition keys_c04_ok (ks : list dkey) : bool := forallb key_c04_ok ks && nodup_texts (some_key_texts ks).
+(* Two keys with the same JSON spelling are no longer excluded: dict_get_state refuses them (the repair of D08;
+   CodecCollideFacts.same_spelling_always_raises).  What is left is the per-key condition: the key comes back from
+   json + k_type(key) as itself, or json / k_type refuses it; a key type whose constructor is not modelled
+   (EDomain: NoneType, tuple-free exotic classes) stays outside the guard. *)
+Definition keys_c04_ok (ks : list dkey) : bool := forallb key_c04_ok ks.
+
+(* the texts json stores the kept keys of a dict under, in order: property values are skipped before the key is
+   looked at, a key json refuses (k_val = None) has no text *)
+Definition dict_kept_texts (items : list (dkey * pval)) : list pstr :=
+  flat_map (fun kv => if is_prop (snd kv) then [] else match k_val (fst kv) with Some sc => [key_text sc] | None => [] end) items.
+(* two kept keys of the dict have the same JSON spelling *)
+Definition same_spelling (items : list (dkey * pval)) : bool := negb (nodup_texts (dict_kept_texts items)).
 Definition seq_like (v : pval) : bool :=
   match v with
   | PSeq QList _ _ _ _ _ | PSeq QTuple _ _ _ _ _ | PArr _ _ _ _ _ | PObjArr _ _ _ _ _ | PMasked _ _ _ _ _ | PSparse _ _ _ _ => true
